@@ -16,3 +16,26 @@ pub fn vshim_starts_with(s: &str, p: &str) -> (r: bool)
 pub fn vshim_str_eq(a: &str, b: &str) -> (r: bool)
     ensures r == (a@ == b@)
 { a == b }
+
+/// std: `str::to_string` / `String::from(&str)`
+#[verifier::external_body]
+pub fn vshim_to_string(s: &str) -> (r: String)
+    ensures r@ == s@
+{ s.to_string() }
+
+pub uninterp spec fn spec_bool_to_string(b: bool) -> Seq<char>;
+pub uninterp spec fn spec_i64_to_string(i: i64) -> Seq<char>;
+pub uninterp spec fn spec_f64_to_string(f: f64) -> Seq<char>;
+/// std Display for bool / i64 / f64 (formatting is trusted, deterministic)
+#[verifier::external_body]
+pub fn vshim_bool_to_string(b: bool) -> (r: String) ensures r@ == spec_bool_to_string(b) { b.to_string() }
+#[verifier::external_body]
+pub fn vshim_i64_to_string(i: i64) -> (r: String) ensures r@ == spec_i64_to_string(i) { i.to_string() }
+#[verifier::external_body]
+pub fn vshim_f64_to_string(f: f64) -> (r: String) ensures r@ == spec_f64_to_string(f) { f.to_string() }
+
+/// std: `Option<&str> == Some(&str)` comparison
+#[verifier::external_body]
+pub fn vshim_opt_str_is(a: Option<&str>, b: &str) -> (r: bool)
+    ensures r == (a.is_some() && a.unwrap()@ == b@)
+{ a == Some(b) }
